@@ -1,10 +1,12 @@
 NAME = 'P-data'
-PROPERTIES = ['C20']
+PROPERTIES = ['C20', 'C15']
 ENGINE = 'verus'
 CLASS = 'U'
 DOC = ('read_data (persistence/binary/data.rs) over an abstract reader: loading the row section of a (possibly damaged) binary file terminates and '
        'the number of rows it materialises never exceeds the number of bytes it consumes - a row count read from the file cannot make the loader '
-       'spin or allocate beyond the size of the input (the degenerate case: rows declared for a table without columns).')
+       'spin or allocate beyond the size of the input (the degenerate case: rows declared for a table without columns). C15: the rows go into the tables '
+       'through Table::insert, which maintains the PRIMARY KEY / UNIQUE hash indexes only - a successful load leaves NO table whose user-defined (CREATE INDEX) '
+       'indexes lag behind its rows: every table that received rows is rebuilt after its last row.')
 
 TEMPLATE = r'''
 use vstd::prelude::*;
@@ -38,13 +40,20 @@ fn read_sql_value(reader: &mut Reader) -> (r: Result<SqlValue, StorageError>)
 #[verifier::external_body] pub struct Database { d: u8 }
 impl Database {
     pub uninterp spec fn rows_added(&self) -> int;
+    /// the tables whose user-defined (CREATE INDEX) indexes do not cover all their rows
+    pub uninterp spec fn stale(&self) -> Set<Str>;
     #[verifier::external_body] pub fn table_count(&self) -> (r: usize) { unimplemented!() }                  // db.catalog.list_tables().len()
     // db.get_table(&name).map(|t| t.schema.columns.len()).ok_or_else(|| TableNotFound(..))
     #[verifier::external_body] pub fn column_count_or_err(&self, name: &Str) -> (r: Result<usize, StorageError>) { unimplemented!() }
     #[verifier::external_body] pub fn has_table(&self, name: &Str) -> (r: bool) { unimplemented!() }          // db.get_table_mut(&name) is Some
     // table.insert(row).map_err(..): one more row in memory (R12)
     #[verifier::external_body] pub fn tbl_insert(&mut self, name: &Str, row: Row) -> (r: Result<(), StorageError>)
-        ensures final(self).rows_added() <= old(self).rows_added() + 1
+        ensures final(self).rows_added() <= old(self).rows_added() + 1,
+                final(self).stale().subset_of(old(self).stale().insert(*name))     // Table::insert does not touch the user-defined indexes
+    { unimplemented!() }
+    // Database::rebuild_indexes: the user-defined indexes of that table are rebuilt from its rows (unit I-resolve)
+    #[verifier::external_body] pub fn rebuild_indexes(&mut self, name: &Str)
+        ensures final(self).rows_added() == old(self).rows_added(), final(self).stale() == old(self).stale().remove(*name)
     { unimplemented!() }
 }
 
@@ -62,6 +71,8 @@ fn main() {}
 
 _F = 'crates/vibesql-storage/src/persistence/binary/data.rs'
 _BOUND = 'reader@.len() <= r0, db.rows_added() - d0 <= r0 - reader@.len(), r0 == old(reader)@.len(), d0 == old(db).rows_added(),'
+_ST0 = 'old(db).stale() =~= Set::<Str>::empty() ==> db.stale() =~= Set::<Str>::empty(),'
+_ST1 = 'old(db).stale() =~= Set::<Str>::empty() ==> db.stale().subset_of(Set::<Str>::empty().insert(table_name)),'
 ITEMS = {
     'read_data': dict(
         file=_F, path='fn read_data', ret='res',
@@ -80,15 +91,15 @@ ITEMS = {
             ('re', r'format!\((?:[^()]|\([^()]*\))*\)', 'err_msg()', None), ('re', r'"[^"]*"\.to_string\(\)', 'err_msg()', None),
         ],
         loops={0: '''
-        invariant ''' + _BOUND + '''
+        invariant ''' + _BOUND + _ST0 + '''
         decreases table_count - tc__,
 ''', 1: '''
-                invariant ''' + _BOUND + '''
+                invariant ''' + _BOUND + _ST1 + '''
                     {{if_has:column_count}}row_count > 0 ==> column_count >= 1,{{end}}
                 decreases row_count - rc__,
 ''', 2: '''
                     invariant reader@.len() <= rlen, cc__ <= column_count, cc__ >= 1 ==> reader@.len() + 1 <= rlen, rlen <= r0,
-                        db.rows_added() - d0 <= r0 - rlen, r0 == old(reader)@.len(), d0 == old(db).rows_added(),
+                        db.rows_added() - d0 <= r0 - rlen, r0 == old(reader)@.len(), d0 == old(db).rows_added(), ''' + _ST1 + '''
                     decreases column_count - cc__,
 '''},
         proofs=[('@entry', 'let ghost r0 = reader@.len(); let ghost d0 = db.rows_added();')],
@@ -97,17 +108,19 @@ ITEMS = {
         // C20: the work a (possibly damaged) file can cause is bounded by its size - the rows materialised never outnumber the bytes consumed
         final(db).rows_added() - old(db).rows_added() <= old(reader)@.len() - final(reader)@.len(),
         final(reader)@.len() <= old(reader)@.len(),
+        // C15: a successful load leaves no table whose user-defined indexes lag behind its rows
+        res is Ok && old(db).stale() =~= Set::<Str>::empty() ==> final(db).stale() =~= Set::<Str>::empty(),
 '''),
 }
 
 OBLIGATIONS = {
-    'read_data': ['post:rows_materialised_bounded_by_bytes_consumed', 'safety:no_overflow', 'proof:loop_invariants_and_termination'],
+    'read_data': ['post:rows_materialised_bounded_by_bytes_consumed__no_table_left_with_lagging_user_defined_indexes', 'safety:no_overflow', 'proof:loop_invariants_and_termination'],
 }
 CANARIES = ['canary_read_data']
 TRUSTED = [
     'external_body Reader (std::io::Read as the sequence of bytes not yet consumed), Msg / Str / SqlValue opaque, err_msg (format! / to_string of an error text)',
     'external_body read_string / read_u64 / read_sql_value: by the CONSUMPTION part of their contracts (Ok => at least 4 / exactly 8 / at least 1 byte consumed; never un-consume), proved on the real readers in units P-alloc / P-codec',
-    'external_body Database (table_count, column_count_or_err, has_table, tbl_insert): R12 rewrite of get_table / get_table_mut + Table::insert; rows_added is a ghost count of inserted rows',
+    'external_body Database (table_count, column_count_or_err, has_table, tbl_insert, rebuild_indexes): R12 rewrite of get_table / get_table_mut + Table::insert; rows_added is a ghost count of inserted rows; stale is the ghost set of tables whose user-defined indexes lag behind their rows (tbl_insert may add the table - Table::insert maintains the hash indexes only, unit K-table; rebuild_indexes removes it - unit I-resolve)',
     'Vec::with_capacity(column_count): column_count comes from the catalog already in memory, not from the data section',
     'read_catalog, the compressed / JSON / SQL-dump loaders and unbounded recursion in read_expression are not under contract',
 ]
